@@ -26,9 +26,39 @@ def generated(seed, n, **fixed):
                "origin": "generated", "hist": meta["hist"]}
 
 
-def population(seed, n_generated, with_corpus=True, **fixed):
+def boundary_programs():
+    """Deterministic programs around buffer capacities and counter widths: constants and defaults of
+    length N-1 / N / N+1, appends up to and beyond N, N at the integer-size boundaries."""
+    out = []
+
+    def add(name, src, **feats):
+        f = {"eof": True, "yields": False}
+        f.update(feats)
+        out.append({"name": "bnd-" + name, "src": src, "feats": f, "args": feature_args(f), "origin": "boundary"})
+    for n in (1, 2, 4, 255, 256, 257):
+        for unt in (False, True):
+            kind = "unterminated str" if unt else "str"
+            tag = f"{'u' if unt else 't'}{n}"
+            if not (n == 1 and not unt):
+                add(f"fill-{tag}", f"out {kind}[{n}] s;\nhook full;\nhook okh;\nparser {{\n  try {{ s += /x+/; \";\"; okh(); }} catch (outofspace) {{ full(); wait \";\"; }}\n  \"!\";\n}}\n")
+            if n <= 4:
+                for ln in (n - 1, n, n + 1):
+                    if ln < 0:
+                        continue
+                    lit = "abcdefgh"[:ln]
+                    add(f"const-{tag}-{ln}", f"out {kind}[{n}] s;\nparser {{\n  \"a\"; s = \"{lit}\"; \"b\";\n}}\n")
+                    if ln >= 1:
+                        add(f"default-{tag}-{ln}", f"out {kind}[{n}] s = \"{lit}\";\nparser {{\n  \"a\"; s += /[a-z]*/; \";\";\n}}\n")
+                add(f"charappend-{tag}", f"out {kind}[{n}] s;\nhook full;\nparser {{\n  loop {{ case {{ \"+\" -> {{ try {{ \"k\"; s += [65]; }} catch (outofspace) {{ full(); }} }} \"-\" -> {{ delete s; }} \";\" -> {{ break; }} }} }}\n}}\n")
+    add("raw-fill", "out raw{uint16_t} r;\nhook full;\nparser {\n  try { r += /x+/; \";\"; } catch (outofspace) { full(); wait \";\"; }\n}\n")
+    return out
+
+
+def population(seed, n_generated, with_corpus=True, boundary=True, **fixed):
     if with_corpus:
         yield from corpus()
+    if boundary:
+        yield from boundary_programs()
     yield from generated(seed, n_generated, **fixed)
 
 
